@@ -448,9 +448,23 @@ func runC08(r *mc.Run) {
 		name string
 		off  int
 	}{{"td_attributes", 48 + 120}, {"xfam", 48 + 128}} {
-		for _, start := range []string{"base", "zero"} {
+		for _, start := range []string{"base", "zero", "module-version-1", "module-version-3+other-fields-ff"} {
 			for bit := 0; bit < 64; bit++ {
 				m := append([]byte(nil), raw0...)
+				// the masks are architectural constants: what the rest of the quote says (TDX module version in
+				// TEE_TCB_SVN[1], SEAM attributes, MR values) has no bearing on them
+				switch start {
+				case "module-version-1":
+					m[48+1] = 1
+				case "module-version-3+other-fields-ff":
+					m[48+1] = 3
+					for k := 48 + 16; k < 48+120; k++ {
+						m[k] = 0xff
+					}
+					for k := 48 + 136; k < 48+584; k++ {
+						m[k] = 0xff
+					}
+				}
 				if start == "zero" {
 					for k := 0; k < 8; k++ {
 						m[f.off+k] = 0
